@@ -12,7 +12,9 @@ A spec is a JSON dict:
    'meas': rows of measurement flips passed as `step_measurement_errors` (decode_ftp; the rotated toric decoder needs them),
    'T': int, 'q': float|None, 'seed': int, 'max_runs': int, 'max_failures': int|None,
    'mut': int (optional: after the call the CALLER flips, in place, bits of every array the API handed back to it as a
-          result — recovery / DecodeResult fields / arrays of the run dict / the generated error; the int seeds which)}
+          result — recovery / DecodeResult fields / arrays of the run dict / the generated error; the int seeds which),
+   'repeats': int (optional, decode: the call is repeated that many times with the global `random` module seeded
+          differently each time — for calls whose documented randomness provably does not apply; all answers must agree)}
   op 'generate' = error_model.generate(code, p, default_rng(seed)).
 In shared mode a decode / decode_ftp / generate call carrying 'mut' is repeated right after the caller's modification and
 must give the first answer again; in both modes the arrays handed back are checked for identity / shared memory with the
@@ -413,8 +415,8 @@ def execute(spec, pool, limit, watch=None, shared=False):
     cbefore = [(c, code_digest(c)) for c in (watch or [])] + [(code, code_digest(code))]
     held = {i: (a, digest(a)) for i, a in cached_arrays((code, dec, em)).items()} if shared else {}
 
-    def call():
-        random.seed(PIN)
+    def call(pin=PIN):
+        random.seed(pin)
         ctx = {'error_model': em, 'error_probability': p}
         if 'err' in args:
             ctx['error'] = args['err']
@@ -443,12 +445,12 @@ def execute(spec, pool, limit, watch=None, shared=False):
             raise ValueError('unknown op ' + op)
         return raw, canon_dict(raw)
 
-    def timed():
+    def timed(pin=PIN):
         old = signal.signal(signal.SIGALRM, _alarm)
         signal.setitimer(signal.ITIMER_REAL, limit)
         try:
             try:
-                return call()
+                return call(pin)
             finally:
                 signal.setitimer(signal.ITIMER_REAL, 0)
                 signal.signal(signal.SIGALRM, old)
@@ -474,6 +476,21 @@ def execute(spec, pool, limit, watch=None, shared=False):
             notes.append('CACHE-WRITE: the call modified in place an array (shape {}) that was held in a functools '
                          'cache / object attribute before the call'.format(a.shape))
             break
+    if spec.get('repeats') and op == 'decode' and res != 'TIMEOUT':
+        # identical-call REPEATS: the caller established (exact arithmetic) that the documented coin toss does not apply to
+        # this call, so the state of the global `random` module is no input of it
+        seen = {res: PIN}
+        for k in range(1, int(spec['repeats'])):
+            _, rk = timed(PIN + 7919 * k)
+            if rk == 'TIMEOUT':
+                break
+            seen.setdefault(rk, PIN + 7919 * k)
+        if len(seen) > 1:
+            notes.append('NONDET: the same decode call (same objects, same arguments) repeated {} times with the global '
+                         '`random` module seeded differently each time returned {} different results although the two '
+                         'candidate cosets are not exactly tied (exact relative gap of the coset probabilities: {}): '
+                         '{}'.format(spec['repeats'], len(seen), spec.get('gap'),
+                                     ' / '.join('random.seed({}) -> {}'.format(v, r[:200]) for r, v in seen.items())))
     outs = result_arrays(raw)
     # identity: what the API hands back is the caller's own — never an array handed back before, never cache memory
     for a in outs:
